@@ -1,4 +1,4 @@
-HOOK_COMMITS = []
+HOOK_COMMITS = ["c80f124"]
 NOTES = ("One explicit TLA+ specification per component under spec/, bound to the C code by replaying TLC-generated behaviours "
          "(predicted observations per step) through harness/vh.c and, for wide value domains, by validating recorded traces. "
          "Genuine defects found are listed in known_findings.json (status fixed / known).")
@@ -24,4 +24,22 @@ CHECKS = {
         "with the predicted return values, buffer contents, storage changes and per-entry initialisation counts, is replayed on the C code with the dictionary array allocated exactly (ASan red zones).",
    note=MC_NOTE + " The dictionary part has no interesting state machine: TLC is used as an exhaustive evaluator of universally quantified ASSUMEs and as behaviour generator (states=1 is therefore expected in the evidence; evaluations / assume_instances give the real volume).",
    technique="TLA+ specification evaluated exhaustively by TLC (ASSUME) + generated scenarios replayed against the C code", ref="DESIGN.md section 8, C06"),
+ "C02": dict(
+   text="CoSsdo is a reference SDO server (functional core, one operator per decoder branch); CoSsdoScen plays conforming download clients against it as deterministic dialogues (expedited / segmented / block, size announced or not, any fill of the last segment, one lost segment per block with retransmission, partial writes) "
+        "for integers and domains of 1..4000 bytes at the real block size 127. TLC checks on every dialogue that the confirmed object equals payload ++ untouched tail and no other object changed, and prints the dialogue with the predicted responses; all dialogues are replayed on the C code "
+        "(decoded responses, storage changes of every object at every step, object dump after the confirmation, segmented read-back).",
+   note=MC_NOTE, technique="TLA+ reference model, scenario enumeration by TLC, dialogues replayed against the C code", ref="DESIGN.md section 8, C02"),
+ "C03": dict(
+   text="Same reference server, upload side: conforming clients upload integers, strings (1..890 bytes) and domains (1..4000 bytes) expedited / segmented / by block with block sizes 1,2,3,7,64,127, acknowledge plans (all, none, first k, changing block size between blocks) over several blocks; "
+        "TLC checks that the assembled bytes equal the object and the object is unchanged, and every dialogue is replayed on the C code comparing sequence numbers, toggle bits, last flags, unused-byte counts, announced sizes and data.",
+   note=MC_NOTE, technique="TLA+ reference model, scenario enumeration by TLC, dialogues replayed against the C code", ref="DESIGN.md section 8, C03"),
+ "C04": dict(
+   text="CoSsdoGen drives the reference server with an alphabet of request-frame classes derived from the decoder's case analysis in every reachable protocol state (TLC: exhaustive over control state x letter); invariants on the reference: one response per request except the two silent cases, "
+        "a positive initiate response concerns the named object, a refused initiate changes nothing. Every edge (plus a state-exposing probe) and random walks are replayed on the H0 build variant of the C code (3 segments per block) comparing response count, decoded verdict / abort code / multiplexer and every storage change.",
+   note=MC_NOTE + " Reactions the property leaves open (client-abort acknowledgement, frames outside the open transfer) are not compared; comparison resumes after the next client abort.",
+   technique="TLA+/TLC model checking + edge-cover behaviours replayed against the C code", ref="DESIGN.md section 8, C04"),
+ "C05": dict(
+   text="Invariant on the reference in every reachable state: client abort followed by fresh conforming transfers (segmented download + read-back, expedited write/read, two-block block upload) succeeds with the right data (AG EF idle as a state invariant, thanks to the functional core). "
+        "On the C code: every edge of the alphabet model, pumped self-loops and random walks, each followed by that probe - once behind a client abort and once behind an NMT reset communication - with fresh payload patterns so that left-over data is visible.",
+   note=MC_NOTE, technique="TLA+/TLC probe invariant + edge-cover x probe behaviours replayed against the C code", ref="DESIGN.md section 8, C05"),
 }
